@@ -144,7 +144,7 @@ def run(tier):
           design_configs=[{"ext": list(x[0]), "skip": x[1], "states": x[3]} for x in good],
           negative_control="AdoptOnReprepare = FALSE violates Faithful in %d of 8 configurations" % sum(1 for x in neg if x[2]),
           histories_enumerated=total, histories_executed=len(outs), frames=sum(1 for e in events if e["t"] == "frame"),
-          reprepares=sum(1 for e in events if e["t"] == "frame" and e["opcode"] == 9) - 4 * len(outs), trace_validation_states=st)
+          reprepares=sum(1 for e in events if e["t"] == "frame" and e["opcode"] == 9) - 6 * len(outs), trace_validation_states=st)
     v.sample({"ext": outs[0]["ext"], "skip": outs[0]["skip"], "steps": outs[0]["steps"][:2]})
     if not v.violations and not v.known_seen:
         base = next(o for o in outs if any(s["step"].get("op") == "exec" and s["result"].get("ok") == 1 for s in o["steps"]))
